@@ -140,7 +140,7 @@ func readerModel(a Aln, descs []string, scored bool) string {
 	return sb.String()
 }
 
-var c16Mutations = []string{"blank_after_first_header", "blank_between_records", "blank_inside_sequence", "blank_at_start", "blank_at_end", "two_blank_lines", "header_without_id", "header_space_only", "lone_gt_last", "short_row", "long_row", "bad_symbol", "control_byte", "no_leading_header", "empty", "only_newlines", "trailing_space", "byte_flip", "truncate", "cr_only", "trailing_empty_record", "tab_header"}
+var c16Mutations = []string{"blank_after_first_header", "blank_between_records", "blank_inside_sequence", "blank_at_start", "blank_at_end", "two_blank_lines", "header_without_id", "header_space_only", "lone_gt_last", "short_row", "long_row", "bad_symbol", "control_byte", "no_leading_header", "empty", "only_newlines", "trailing_space", "byte_flip", "truncate", "cr_only", "trailing_empty_record", "tab_header", "empty_first_record", "empty_middle_record"}
 
 func mutateFasta(r *Rand, text string, kind string) string {
 	nl := "\n"
@@ -237,6 +237,14 @@ func mutateFasta(r *Rand, text string, kind string) string {
 		return strings.Join(lines, "\r") + "\r"
 	case "trailing_empty_record":
 		return join() + ">last" + nl
+	case "empty_first_record":
+		ins(0, ">empty0")
+	case "empty_middle_record":
+		if len(hdrs) > 1 {
+			ins(hdrs[1+r.Intn(len(hdrs)-1)], ">emptyM")
+		} else {
+			ins(0, ">emptyM")
+		}
 	case "tab_header":
 		i := hdrs[r.Intn(len(hdrs))]
 		lines[i] = strings.Replace(lines[i], ">", ">\t", 1)
@@ -365,6 +373,7 @@ func checkC16(t *Trial, ctx *Ctx) *Failure {
 		}
 	default:
 		ctx.Nontrivial()
+		var encVerdict [4]string // what each reader made of the stream: "error" or its records
 		for i := range t.Runs {
 			rd := readers[i%4]
 			var c Case
@@ -384,6 +393,32 @@ func checkC16(t *Trial, ctx *Ctx) *Failure {
 			case simrt.Panicked, simrt.Deadlocked:
 				t.Runs = t.Runs[:i+1]
 				return &Failure{Class: fmt.Sprintf("C16/%s{%s}", res.Out.Signature(), rd), Detail: fmt.Sprintf("%s on byte stream %q (%s):\n%s", rd, stream, t.Kind, res.Describe())}
+			}
+			if strings.HasPrefix(t.Kind, "mutated") && i < 4 {
+				if res.Err != nil {
+					encVerdict[i] = "error"
+				} else {
+					// compare records without the scoring reader's extra columns
+					var sb strings.Builder
+					for _, l := range strings.Split(strings.TrimSuffix(string(res.Stdout), "\n"), "\n") {
+						f := strings.Split(l, "\t")
+						if len(f) > 4 {
+							f = f[:4]
+						}
+						sb.WriteString(strings.Join(f, "\t") + "\n")
+					}
+					encVerdict[i] = sb.String()
+				}
+				// readers 1,2,3 (streaming, scoring, list) apply the same checks to the same bytes: they must agree
+				if i == 3 && (encVerdict[1] != encVerdict[2] || encVerdict[1] != encVerdict[3]) {
+					short := func(v string) string {
+						if v == "error" {
+							return "rejected"
+						}
+						return fmt.Sprintf("accepted %d records", strings.Count(v, "\n"))
+					}
+					return &Failure{Class: "C16/encoding-readers-disagree", Detail: fmt.Sprintf("byte stream %q (%s): streaming reader %s, scoring reader %s, list reader %s", stream, t.Kind, short(encVerdict[1]), short(encVerdict[2]), short(encVerdict[3]))}
+				}
 			}
 			if t.Kind == "read-fault" && res.Fired["read_error"] > 0 && res.Err == nil {
 				t.Runs = t.Runs[:i+1]
